@@ -273,7 +273,7 @@ def run(F, rep):
     if not getattr(rep, 'nested', False):
         import core
         import c01
-        c01.run(F, core.Borrowed(rep, only={'C01.V1', 'C01.V2'}))
+        core.borrow(F, rep, c01, only={'C01.V1', 'C01.V2'})
 
     # ------------------------------------------------------------------ E: exact child counts of token elements
     rep.rule('C16.E1', 'the validator accepts a ci / cn token only with EXACTLY the expected number of non-comment children (1, or 3 for an e-notation cn): nonCommentChildCount is compared with == / != only, '
